@@ -48,6 +48,7 @@ int scen_transclude(cmd_t * c);
 int scen_opml(cmd_t * c);
 int scen_chain(cmd_t * c);
 int scen_pairs(cmd_t * c);
+int scen_ac(cmd_t * c);
 int scen_cost(cmd_t * c);
 int scen_threads(cmd_t * c);
 
